@@ -866,6 +866,47 @@ where
     }
 }
 
+/// Two validations through one body buffer: `a` is validated, the `Bytes` that comes back (the caller's own buffer when
+/// nothing was folded) is overwritten in place with `b`'s body — same address, same length, other content — and handed in
+/// again as `b`'s body: a receive buffer that is reused. Returns the outcome for `b` (None when the buffer could not be
+/// reused: `a` refused, folded, or the lengths differ). No requirement sets, options spelled literally.
+pub fn execute_second_in_the_same_buffer(a: &Case, b: &Case) -> Option<Outcome> {
+    if a.wire.body.len() != b.wire.body.len() || a.wire.body.is_empty() {
+        return None;
+    }
+    let req_a = build_request(&a.wire).ok()?;
+    let req_b = build_request(&b.wire).ok()?;
+    let mut prov_a = Prov::new(a.script.clone());
+    let opts_a = SignatureOptions {
+        s3: a.cfg.s3,
+        url_encode_form: a.cfg.fold,
+    };
+    let fut = sigv4_validate_request(req_a, &a.cfg.region, &a.cfg.service, &mut prov_a, to_datetime(a.cfg.now), &NO_ADDITIONAL_SIGNED_HEADERS, opts_a);
+    let (ra, _) = drive(fut);
+    let body_a = match ra {
+        Ok(Ok((_, body, _))) => body,
+        _ => return None,
+    };
+    let mut buf = body_a.try_into_mut().ok()?;
+    if buf.len() != b.wire.body.len() {
+        return None;
+    }
+    buf.copy_from_slice(&b.wire.body);
+    let (parts_b, _) = req_b.into_parts();
+    let req_b = Request::from_parts(parts_b, buf.freeze());
+    let mut prov_b = Prov::new(b.script.clone());
+    let opts_b = SignatureOptions {
+        s3: b.cfg.s3,
+        url_encode_form: b.cfg.fold,
+    };
+    let fut = sigv4_validate_request(req_b, &b.cfg.region, &b.cfg.service, &mut prov_b, to_datetime(b.cfg.now), &NO_ADDITIONAL_SIGNED_HEADERS, opts_b);
+    let (rb, _) = drive(fut);
+    Some(match rb {
+        Err(o) => o,
+        Ok(v) => outcome_of(v),
+    })
+}
+
 /// Execute one case with a fresh provider.
 pub fn execute(case: &Case) -> Record {
     let mut prov = Prov::new(case.script.clone());
